@@ -558,9 +558,13 @@ func (s *session) handleLogon(msg *Message) error {
 			}
 		}
 
-		s.log.OnEvent("Responding to logon request")
-		if err := s.sendLogonInReplyTo(resetSeqNumFlag.Bool(), msg); err != nil {
-			return err
+		// A Logon echoing the ResetSeqNumFlag of a reset we started ourselves (ResetSeqTime) completes
+		// the exchange: answering it would reset the store again and send a second Logon numbered 1.
+		if !(resetSeqNumFlag.Bool() && s.sentReset) {
+			s.log.OnEvent("Responding to logon request")
+			if err := s.sendLogonInReplyTo(resetSeqNumFlag.Bool(), msg); err != nil {
+				return err
+			}
 		}
 	}
 	s.sentReset = false
